@@ -120,7 +120,84 @@ def check_case(ctx, pm, D, order_seed, tmpdir):
     if problems:
         ctx.violation("M5-file-roundtrip", "dump(path)/load(path) equals the string round trip", case,
                       observed=problems[:8], expected="no difference")
+    if im2 is not None:
+        check_edit_after_reload(ctx, pm, D, im2, rng, case)
     return True
+
+
+def check_edit_after_reload(ctx, pm, D, im2, rng, case):
+    """M6: the re-read manifest is a manifest like any other: an image is taken out of a cell, attributes of another are
+    changed (checksum types dropped, volume id / implanted md5 cleared), a whole variant is deleted - written again, it is
+    read back as exactly that."""
+    import copy
+    D2 = copy.deepcopy(D)
+    edits = []
+    placed = [(i, c) for i, spec in enumerate(D2["images"]) for c in spec["cells"]]
+    if not placed:
+        return
+    # (a) one image leaves one cell
+    i, (v, a) = rng.choice(placed)
+    spec = D2["images"][i]
+    objs = [o for o in im2.images.get(v, {}).get(a, ()) if o.path == spec["attrs"]["path"] and o.checksums == spec["attrs"]["checksums"]]
+    if len(objs) == 1 and len(placed) > 1:
+        im2.images[v][a].discard(objs[0])
+        spec["cells"].remove([v, a] if [v, a] in spec["cells"] else (v, a))
+        if not im2.images[v][a]:
+            del im2.images[v][a]
+            if not im2.images[v]:
+                del im2[v]
+        edits.append("image-removed-from-cell")
+    # (b) attributes of another image change in place (every cell holding the object sees it)
+    rest = [(i2, c) for i2, sp in enumerate(D2["images"]) for c in sp["cells"]]
+    if rest:
+        i2, (v2, a2) = rng.choice(rest)
+        sp = D2["images"][i2]
+        same = [o for o in im2.images.get(v2, {}).get(a2, ()) if o.path == sp["attrs"]["path"] and o.checksums == sp["attrs"]["checksums"]]
+        clones = [sp3 for sp3 in D2["images"] if sp3 is not sp and sp3["attrs"]["path"] == sp["attrs"]["path"]]
+        # after a reload every listing is an object of its own: the edit is made on each listing of this image
+        listings = []
+        for (v3, a3) in sp["cells"]:
+            listings.append([o for o in im2.images.get(v3, {}).get(a3, ()) if o.path == sp["attrs"]["path"] and o.checksums == sp["attrs"]["checksums"]])
+        if all(len(l) == 1 for l in listings) and not clones and \
+                not any(sp4 is not sp and F.model_identity(sp4["attrs"]) == F.model_identity(sp["attrs"]) for sp4 in D2["images"]):
+            drop = sorted(sp["attrs"]["checksums"])[0] if len(sp["attrs"]["checksums"]) > 1 else None
+            if drop is not None:
+                del sp["attrs"]["checksums"][drop]
+                edits.append("checksum-type-dropped")
+            sp["attrs"]["volume_id"] = None
+            sp["attrs"]["implant_md5"] = None
+            sp["attrs"]["mtime"] = sp["attrs"]["mtime"] + 1
+            for o in set(l[0] for l in listings):
+                if drop is not None:
+                    del o.checksums[drop]
+                o.volume_id = None
+                o.implant_md5 = None
+                o.mtime = sp["attrs"]["mtime"]
+            edits.append("attributes-cleared")
+    D2["images"] = [sp for sp in D2["images"] if sp["cells"]]
+    if not edits:
+        return
+    for e in edits:
+        ctx.count("edit-after-reload-" + e)
+    case6 = dict(case, edited_after_reload=edits, D_after_edit=D2)
+    try:
+        t3 = im2.dumps()
+        im4 = pm.Images()
+        im4.loads(t3)
+        cells, comp, problems = F.observe(im4)
+        probs = problems + F.diff_cells(F.expected_cells(D2), cells)
+        if not probs:
+            D3 = dict(D2, refused_add=False)
+            t_fresh = F.build(pm, D3, None).dumps()
+            if t_fresh != t3:
+                probs = ["the edited re-read manifest and a freshly built manifest with the same content write different text",
+                         _first_diff(t_fresh, t3)]
+    except Exception as e:
+        probs = ["raised %s: %s" % (type(e).__name__, str(e)[:200])]
+    ctx.monitor("M6-edited-after-reload", fired=bool(probs))
+    if probs:
+        ctx.violation("M6-edited-after-reload", "a re-read manifest that is edited and written again is read back as the edited manifest",
+                      case6, observed=probs[:8], expected="no difference")
 
 
 def _first_diff(a, b):
